@@ -105,6 +105,41 @@ func c24SchedRun(r *vrt.R) {
 		// JoinGame"); the JoinGame handling on the backend loop completes the client phase, drains the queue and
 		// completes the join.
 		{Name: "play-firstjoin-vs-2fml", Quick: 2, Thorough: 4, Body: c24FirstJoinBody},
+		// Play phase, server switch of a legacy Forge client: message #1 is queued while the client re-runs its
+		// FML handshake; the client's final FML|HS ACK completes the handshake and asks for a flush while the
+		// backend loop is inside handleJoinGame (connected server cleared, old backend closed, then
+		// handleBackendJoinGame drains to the new backend B, then B becomes the connected server).
+		{Name: "play-switch-fmlack-vs-joingame", Quick: 2, Thorough: -1, Body: func(x *sched.X) {
+			rig := c24NewRig("play")
+			rig.player.SendLegacyForgeHandshakeResetPacket()
+			rig.sendIndexed(c24Chan, 2) // #1: held back, the handshake is not complete
+			for _, d := range []int{forge.ClientHelloDiscriminator, forge.ModListDiscriminator, forge.AckDiscriminator, forge.AckDiscriminator, forge.AckDiscriminator} {
+				rig.sendRaw(forge.LegacyHandshakeChannel, []byte{byte(d), 0})
+			}
+			if len(rig.log) != 0 {
+				x.Fail("setup", "message delivered before the handshake completed: %v", rig.log)
+			}
+			rig.newBackend("B", state.Play)
+			dest := rig.scs["B"]
+			dest.connPhase = phase.UnknownBackendPhase
+			rig.setInFlight("B")
+			x.Go("client", func() {
+				rig.sendRaw(forge.LegacyHandshakeChannel, []byte{byte(forge.AckDiscriminator & 0xff), 0}) // completes the handshake -> flush
+			})
+			x.Go("backend", func() {
+				rig.player.mu.Lock()
+				existing := rig.player.connectedServer_
+				rig.player.connectedServer_ = nil
+				rig.player.mu.Unlock()
+				existing.disconnect()
+				jg := c24JoinGame()
+				if err := rig.play.handleBackendJoinGame(c24JoinCtx(rig, jg), jg, dest); err != nil {
+					x.Fail("error", "join: %v", err)
+				}
+				rig.player.setConnectedServer(dest)
+			})
+			x.AtEnd(func() { c24SchedFinal(x, rig, 1) })
+		}},
 	})
 }
 
